@@ -6,7 +6,7 @@ Each case: generated source tree x prior destination state x flag set  ->
   * snapshot oracles written from the property texts (independent of the model's planner).
 `focus` selects the flag distribution and which oracles may raise failures for that property.
 """
-import os, shutil, json, stat, time
+import os, shutil, json, stat, time, re
 from sylib import *
 
 NAMES = ["a", "b", "c.txt", "d.bin", "d.dat", "e f", "ü.txt", "x.sy.tmp", ".hidden", "k.log", "data", "n1", "n2", "caf\udce9.txt", "README.md"]
@@ -709,3 +709,45 @@ def run_bloom(tier="quick", seed=1, work=None, replay=None, **kw):
         if errors: rep.oracle_fail("C06/spurious-delete-errors", f"{len(errors)} errors while deleting stale entries: {errors[0].get('path')}", desc)
         shutil.rmtree(case_dir, ignore_errors=True)
     return rep.to_dict()
+
+def run_single_file(tier="quick", seed=1, work=None, replay=None, **kw):
+    """Single-file mode (`sy <file> <file>`): C01's postcondition, filters (C16), and the re-run (C03)."""
+    rep = Report(rule="single-file sources: destination absent / equal / stale same size / longer / shorter / older / newer, with compare modes and size bounds; "
+                      "non-trivial = the destination existed before; distinct = distinct (content sizes, state, flags)")
+    rng = Rng(seed * 7477 + 101); n = 25 if tier == "quick" else 300
+    os.makedirs(work, exist_ok=True); contents = Contents()
+    for ci in range(n):
+        case = os.path.join(work, f"sf{ci}"); os.makedirs(case)
+        data = gen_data(rng, big=rng.chance(1, 4)); t = BASE_T * 10**9 + rng.range(10, 900) * 10**9
+        sp, dp = os.path.join(case, "src file.bin"), os.path.join(case, "dst file.bin")
+        open(sp, "wb").write(data); os.utime(sp, ns=(t, t))
+        state = rng.pick(["absent", "equal", "stale-same-size", "longer", "shorter", "older", "newer"])
+        if state != "absent":
+            d = {"equal": data, "stale-same-size": mutate_same(data), "longer": data + b"tail", "shorter": data[:len(data) // 2], "older": data, "newer": data}[state]
+            open(dp, "wb").write(d); dt = t + {"older": -50 * 10**9, "newer": 50 * 10**9}.get(state, 0) + (7 * 10**9 if state in ("stale-same-size", "longer", "shorter") else 0)
+            os.utime(dp, ns=(dt, dt))
+        flags = rng.pick([[], [], ["--checksum"], ["--size-only"], ["--ignore-times"]])
+        env = {"SY_VERIF_DELTA_THRESHOLD": "4096", "SY_VERIF_BLOCK_SIZE": "1024"} if rng.chance(1, 2) else {}
+        rc, out, err = run_sy([sp, dp, "--json"] + flags, case, env_extra=env)
+        desc = {"case": ci, "seed": seed, "state": state, "size": len(data), "flags": flags, "env": env, "rc": rc}
+        rep.case((state, len(data), tuple(flags)), state != "absent"); rep.tag("single." + state)
+        rep.sample(desc)
+        if rc == 0:
+            got = open(dp, "rb").read() if os.path.exists(dp) else None
+            cmpm = "c" if "--checksum" in flags else "s" if "--size-only" in flags else "i" if "--ignore-times" in flags else "d"
+            if got != data and not (state == "stale-same-size" and cmpm == "s"):
+                rep.oracle_fail("C01/single-file-content-differs", f"single-file sync exited 0 but the destination does not hold the source bytes (prior state {state})", desc)
+            elif got == data and os.stat(dp).st_mtime_ns != t and state not in ("equal",) and not (cmpm == "c" and state in ("older", "newer")) and not (cmpm == "s" and state in ("older", "newer")):
+                rep.oracle_fail("C01/single-file-mtime-not-carried", f"single-file sync transferred the file but the destination mtime is not the source's (prior state {state})", desc)
+            # C03: re-running the same command changes nothing
+            before = os.stat(dp)
+            rc2, out2, err2 = run_sy([sp, dp] + flags, case, env_extra=env)
+            m = re.search(r"Files updated:\s+(\d+)", out2); m2 = re.search(r"Files created:\s+(\d+)", out2)
+            if cmpm != "i" and ((m and int(m.group(1)) > 0) or (m2 and int(m2.group(1)) > 0)):
+                rep.oracle_fail("C03/single-file-mode-always-rewrites", "re-running a single-file sync reports the file as updated again (no comparison rule in single-file mode)", desc)
+        shutil.rmtree(case, ignore_errors=True)
+    return rep.to_dict()
+
+def mutate_same(data):
+    if not data: return b""
+    d = bytearray(data); d[0] ^= 0xFF; return bytes(d)
